@@ -13,6 +13,7 @@ import (
 	"encoding/json"
 	"fmt"
 	"reflect"
+	"sort"
 	"strings"
 	"time"
 	"unsafe"
@@ -168,6 +169,20 @@ type c07ref struct {
 	resolved   map[*yaml.Node][]c07pair
 	inProgress map[*yaml.Node]bool
 	err        error
+	// cycleEvents counts merge sources skipped because they were being resolved (merge cycles).
+	cycleEvents int
+	// ambiguous: the document has a merge cycle that is not a mapping merging itself directly, or a repeated
+	// explicit key: the statement only says such cycles are tolerated, not what the content and order are.
+	ambiguous bool
+	// features seen (evidence)
+	feat map[string]bool
+}
+
+func (r *c07ref) note(f string) {
+	if r.feat == nil {
+		r.feat = map[string]bool{}
+	}
+	r.feat[f] = true
 }
 
 func c07deref(n *yaml.Node) *yaml.Node {
@@ -236,6 +251,7 @@ func (r *c07ref) resolve(m *yaml.Node) ([]c07pair, error) {
 	}
 	r.inProgress[m] = true
 	defer delete(r.inProgress, m)
+	eventsBefore := r.cycleEvents
 	explicit := map[string]bool{}
 	for i := 0; i+1 < len(m.Content); i += 2 {
 		if m.Content[i].Tag == "!!merge" {
@@ -245,7 +261,13 @@ func (r *c07ref) resolve(m *yaml.Node) ([]c07pair, error) {
 		if err != nil {
 			return nil, err
 		}
+		if explicit[k] {
+			r.ambiguous = true // a repeated explicit key: the statement is silent
+		}
 		explicit[k] = true
+		if m.Content[i].Kind == yaml.AliasNode {
+			r.note("alias-as-key")
+		}
 	}
 	have := map[string]bool{}
 	for k := range explicit {
@@ -260,9 +282,17 @@ func (r *c07ref) resolve(m *yaml.Node) ([]c07pair, error) {
 			if err := r.mergeSources(v, &srcs, map[*yaml.Node]bool{}); err != nil {
 				return nil, err
 			}
+			direct := c07deref(v) == m && v.Kind == yaml.AliasNode
 			for _, s := range srcs {
 				if r.inProgress[s] {
 					cyclic = true
+					r.cycleEvents++
+					r.note("merge-cycle")
+					if !(s == m && direct) {
+						// through a sequence, or through other mappings: the library prunes with one shared
+						// visited-set, which changes content and order in ways the statement does not fix
+						r.ambiguous = true
+					}
 					continue // merge cycle: tolerated
 				}
 				sp, err := r.resolve(s)
@@ -271,6 +301,11 @@ func (r *c07ref) resolve(m *yaml.Node) ([]c07pair, error) {
 				}
 				for _, p := range sp {
 					if have[p.key] {
+						if explicit[p.key] {
+							r.note("explicit-beats-merged")
+						} else {
+							r.note("earlier-merge-beats-later")
+						}
 						continue
 					}
 					have[p.key] = true
@@ -295,8 +330,9 @@ func (r *c07ref) resolve(m *yaml.Node) ([]c07pair, error) {
 			out = append(out, c07pair{ck, v})
 		}
 	}
-	if !cyclic {
-		r.resolved[m] = out
+	_ = cyclic
+	if r.cycleEvents == eventsBefore {
+		r.resolved[m] = out // only results that did not depend on an in-progress context are cached
 	}
 	return out, nil
 }
@@ -338,6 +374,10 @@ func (r *c07ref) expand(n *yaml.Node, onPath map[*yaml.Node]bool, budget *int) (
 			return docgen.Flt(t), nil
 		case time.Time:
 			return docgen.Time(t.Format(time.RFC3339Nano)), nil
+		case int64:
+			return docgen.Int(t), nil
+		case uint64:
+			return docgen.Flt(float64(t)), nil
 		}
 		return docgen.Str(fmt.Sprint(v)), nil
 	case yaml.SequenceNode:
@@ -387,6 +427,12 @@ func c07toN(v any) *docgen.N {
 		return docgen.Bool(t)
 	case float64:
 		return docgen.Flt(t)
+	case time.Time:
+		return docgen.Time(t.Format(time.RFC3339Nano))
+	case int64:
+		return docgen.Int(t)
+	case uint64:
+		return docgen.Flt(float64(t))
 	case []any:
 		out := docgen.Seq()
 		for _, e := range t {
@@ -468,11 +514,28 @@ func c07judge(w *report.W, text string) c07outcome {
 	if pan := report.Catch(func() { got, gerr = ordered.DecodeYAML(&doc) }); pan != "" {
 		return c07outcome{kind: "panic", detail: pan}
 	}
-	if werr != nil {
-		if gerr == nil {
-			return c07outcome{kind: "cycle-accepted", detail: "reference: " + werr.Error() + "; decoder returned " + c07toN(got).Brief()}
+	feats := func() string {
+		var fs []string
+		for f := range ref.feat {
+			fs = append(fs, f)
 		}
-		return c07outcome{class: "error:" + werr.Error()}
+		sort.Strings(fs)
+		return strings.Join(fs, "+")
+	}
+	if ref.ambiguous {
+		// merge cycle through a sequence / several mappings, or a repeated explicit key: only "no panic, no
+		// fatal crash, no hang" is asserted (all three were just checked)
+		return c07outcome{class: "ambiguous-cycle-or-duplicate-key(no-crash-only)"}
+	}
+	if werr != nil {
+		if werr.Error() == "value cycle" {
+			if gerr == nil {
+				return c07outcome{kind: "cycle-accepted", detail: "the document's aliases form a value cycle but the decoder returned " + c07toN(got).Brief()}
+			}
+			return c07outcome{class: "error:value cycle"}
+		}
+		// not a mapping where one is needed, null / non-scalar keys ...: the statement does not demand an error
+		return c07outcome{class: "malformed-for-reference:" + werr.Error()}
 	}
 	if gerr != nil {
 		return c07outcome{kind: "unexpected-error", detail: gerr.Error() + " | reference result " + want.Brief()}
@@ -495,6 +558,9 @@ func c07judge(w *report.W, text string) c07outcome {
 	}
 	if d := docgen.Match(want, c07toN(&om)); d != "" {
 		return c07outcome{kind: "wrong-content", detail: "via UnmarshalYAML: " + d}
+	}
+	if f := feats(); f != "" {
+		return c07outcome{class: "ok:" + f}
 	}
 	return c07outcome{class: "ok"}
 }
@@ -541,8 +607,8 @@ func c07run(w *report.W) {
 		}
 		classes[cl]++
 		w.Obs(cl)
-		if !strings.HasPrefix(cl, "skipped") && strings.ContainsAny(text, "*") {
-			w.P.Nontrivial++
+		if strings.HasPrefix(cl, "ok") && strings.ContainsAny(text, "*") {
+			w.P.Nontrivial++ // accepted, compared in full, and uses at least one alias
 		}
 		if o.kind != "" {
 			w.Violate(report.Violation{Kind: o.kind, Case: strings.TrimSpace(text) + "   [" + descr + "]", Detail: o.detail, Size: size, Replay: text})
@@ -581,7 +647,7 @@ func init() {
 			"(self / mutual cycles through values, sequences, keys and merges); enumerated with <=4 (quick) / <=5 (thorough) deviations from a default document that already anchors, aliases and merges, plus 19 hand-written deep shapes. " +
 			"ordered.DecodeYAML and yaml.Unmarshal into *ordered.MapSA are compared with a two-phase reference (pure per-mapping merge resolution, then containment-cycle detection and expansion) on " +
 			"yaml.v3's node graph: content and order, independent copies (no shared mapping/sequence objects), value cycle => error, merge cycle tolerated, no panic / fatal crash / hang. " +
-			"Non-trivial = the document contains at least one alias and is accepted by the YAML parser.",
+			"Non-trivial = the document contains at least one alias and was compared in full (content, order, independence). Documents whose merge cycle runs through a sequence or several mappings, or that repeat an explicit key, are only checked for no panic / crash / hang.",
 		Assumptions: []string{
 			"yaml.v3's parser resolves alias names to anchor nodes correctly (including redefinition); the reference works on that node graph",
 			"a repeated explicit key keeps its first position and takes the last value (Map.Set semantics); not part of the statement, only used to stay silent on such documents",
